@@ -78,11 +78,14 @@ FINGERPRINT_ITEMS: List[Tuple[str, Optional[str]]] = [
     (f"{CG}/client.py", "ClientGenerator._create_async_operation_method"),
 ]
 
-TRIGGERS = ["listArg", "deepVars", "pyName", "sharedMut", "nameClash"]
+TRIGGERS = ["listArg", "pyName", "sharedMut", "nameClash"]
+# C14-F2 ("deepVars": an argument below level 2 was never declared) was repaired by /repo dfbc7ef: its old
+# trigger is no trigger any more.  The predicate is kept (here and in the Lean driver) only to MEASURE how
+# many generated operations lie in the region the theorem gained (`region:old-F2 ...`).
 # failure signature -> finding triggers that may explain it, most specific first
 SIGNATURE_TRIGGERS: Dict[str, List[str]] = {
     "var-type-not-exact": ["listArg", "nameClash", "sharedMut"],
-    "var-undeclared": ["deepVars", "sharedMut"],
+    "var-undeclared": ["sharedMut"],
     "field-name-not-graphql": ["pyName", "sharedMut"],
     "var-declared-twice": [],
     "document-does-not-parse": [],
@@ -522,8 +525,6 @@ class ExprGen:
             return False
         if m["avoid_list"] and any(T_has_list(a["ty"]) and T_nonnull(a["ty"]) for a in f["args"]):
             return False
-        if m["avoid_deep"] and depth >= 3 and any(T_nonnull(a["ty"]) for a in f["args"]):
-            return False
         return True
 
     def possible(self, tname: str) -> List[str]:
@@ -595,8 +596,8 @@ class ExprGen:
             if not any(s["key"] == a["name"] for s in acc["args"]):
                 continue  # the generated signature does not expose this argument
             required = T_nonnull(a["ty"])
-            give = required or rng.random() < m["p_arg"]
-            if not required and ((m["avoid_list"] and T_has_list(a["ty"])) or (m["avoid_deep"] and depth >= 3)):
+            give = required or rng.random() < (m.get("p_arg_deep", m["p_arg"]) if depth >= 3 else m["p_arg"])
+            if not required and m["avoid_list"] and T_has_list(a["ty"]):
                 give = False
             args.append([a["name"], self.value(a["ty"]) if give else None])
         se: Dict[str, Any] = {"cls": cls, "attr": acc["attr"], "field": f["name"], "args": args, "calls": [],
@@ -702,16 +703,20 @@ class ExprGen:
 
     def set_mode(self, flavour: str) -> None:
         rng = self.rng
+        # no flavour avoids arguments below level 2 any more (C14-F2 is fixed: the property is claimed there)
         if flavour == "clean":
-            self.mode = {"clean": True, "avoid_camel": True, "avoid_list": True, "avoid_deep": True, "p_arg": 0.6,
-                         "p_alias": 0.3, "depths": [1, 2, 3, 4]}
+            self.mode = {"clean": True, "avoid_camel": True, "avoid_list": True, "p_arg": 0.6,
+                         "p_alias": 0.3, "depths": [1, 2, 3, 4, 5]}
         elif flavour == "wild":
-            self.mode = {"clean": False, "avoid_camel": False, "avoid_list": False, "avoid_deep": False, "p_arg": 0.6,
+            self.mode = {"clean": False, "avoid_camel": False, "avoid_list": False, "p_arg": 0.6,
                          "p_alias": 0.35, "depths": [2, 3, 4]}
+        elif flavour == "deep":  # inside the old F2 region, outside every open trigger: deep trees, arguments given low down
+            self.mode = {"clean": True, "avoid_camel": True, "avoid_list": True, "p_arg": 0.5, "p_arg_deep": 0.95,
+                         "p_alias": 0.3, "depths": [3, 4, 5, 6]}
         else:  # one finding region at a time
-            self.mode = {"clean": True, "avoid_camel": True, "avoid_list": True, "avoid_deep": True, "p_arg": 0.7,
+            self.mode = {"clean": True, "avoid_camel": True, "avoid_list": True, "p_arg": 0.7,
                          "p_alias": 0.3, "depths": [2, 3, 4]}
-            key = {"list": "avoid_list", "deep": "avoid_deep", "camel": "avoid_camel", "shared": "clean"}[flavour]
+            key = {"list": "avoid_list", "camel": "avoid_camel", "shared": "clean"}[flavour]
             self.mode[key] = False
         _ = rng
 
@@ -848,10 +853,16 @@ def format_names(names: List[str], idx: int) -> List[str]:
     return out
 
 
+def deep_region(op: Dict[str, Any]) -> bool:
+    """region of the FIXED finding C14-F2: a field at depth >= 3 carries a non-None argument (twin of Lean's
+    trigDeepList 1; measured, not a trigger)"""
+    nodes = [nd for f in op["fields"] for nd in walk_se(f)]
+    return any(d >= 3 and any(v is not None for _, v in se["args"]) for se, d in nodes)
+
+
 def classify(history: List[Dict[str, Any]], op: Dict[str, Any]) -> Dict[str, bool]:
     nodes = [nd for f in op["fields"] for nd in walk_se(f)]
     list_arg = any(v is not None and T_has_list(se["argTypes"].get(n, {"n": "?"})) for se, _ in nodes for n, v in se["args"])
-    deep = any(d >= 3 and any(v is not None for _, v in se["args"]) for se, d in nodes)
     py_name = any(se["kind"] == "method" and se["cls"] not in ("Query", "Mutation") and se["py"] != se["field"] for se, _ in nodes)
     hist = [o for h in history for o in shared_occurrences(h)]
     own = shared_occurrences(op)
@@ -861,7 +872,7 @@ def classify(history: List[Dict[str, Any]], op: Dict[str, Any]) -> Dict[str, boo
             shared = True
         if any(j != i and m and c2 == c and a2 == a for j, (c2, a2, m) in enumerate(own)):
             shared = True
-    return {"listArg": list_arg, "deepVars": deep, "pyName": py_name, "sharedMut": shared, "nameClash": syntactic_clash(op)}
+    return {"listArg": list_arg, "pyName": py_name, "sharedMut": shared, "nameClash": syntactic_clash(op)}
 
 
 def rsel_arg_names(r: Dict[str, Any]) -> List[str]:
@@ -1111,8 +1122,8 @@ def schema_case(root: Path, seed: str, budget: Dict[str, int], fixed: Optional[D
         seqs = copy.deepcopy(fixed["seqs"])
     else:
         gen = ExprGen(rng, schema, table)
-        flavours = (["clean"] * budget["clean"] + ["wild"] * budget["wild"] + ["list", "deep", "camel", "shared"] * budget["each"]
-                    + ["illformed"] * budget.get("ill", 1))
+        flavours = (["clean"] * budget["clean"] + ["wild"] * budget["wild"] + ["list", "camel", "shared"] * budget["each"]
+                    + ["deep"] * budget.get("deep", 3 * budget["each"]) + ["illformed"] * budget.get("ill", 1))
         seqs = []
         for fl in flavours:
             ops = gen.sequence(fl)
@@ -1301,6 +1312,14 @@ def compare_rsel(doc: Dict[str, Any], want: List[Dict[str, Any]]) -> List[str]:
     return sigs
 
 
+def all_sels(sels: List[Dict[str, Any]]) -> List[Dict[str, Any]]:
+    out: List[Dict[str, Any]] = []
+    for s in sels:
+        out.append(s)
+        out += all_sels(s["sels"])
+    return out
+
+
 def doc_vars(sels: List[Dict[str, Any]]) -> List[str]:
     out: List[str] = []
     for s in sels:
@@ -1444,10 +1463,17 @@ def process_case(ctx: Ctx, res: Result, case: Dict[str, Any], model: Optional[Di
                 inp = {**base_input, "client": kind, "sequence": si, "op": k, "flavour": sq["flavour"],
                        "replay": {"schema": strip_py(case["schema"]), "seqs": [{"flavour": sq["flavour"], "ops": ops[: k + 1]}]}}
                 res.seen([case["seed"], si, k, kind], True)
+                deep = deep_region(o)
                 if kind == "sync":
                     for t, v in trig.items():
                         if v:
                             res.count("trigger:" + t)
+                    if deep and not o.get("illFormed"):
+                        res.count("region:old-F2 (argument below level 2; fixed by dfbc7ef)")
+                        if not any(trig.values()):
+                            res.count("region:old-F2 and outside every open trigger (gained by the theorem)")
+                            if any("on" in s for s in all_sels(wants[k])):
+                                res.count("region:old-F2, outside every open trigger, with inline fragments")
                     if not any(trig.values()):
                         res.count("ops-outside-every-trigger")
                         proved = not any(m for h in ops[: k + 1] for _, _, m in shared_occurrences(h))
@@ -1476,6 +1502,8 @@ def process_case(ctx: Ctx, res: Result, case: Dict[str, Any], model: Optional[Di
                     if kind == "sync":
                         if not common.same_json(lean_view, mo["trig"]):
                             res.mismatches.append(Mismatch("triggers", drop_replay(inp), lean_view, mo["trig"]))
+                        if bool(mo.get("deepVars")) != deep:
+                            res.mismatches.append(Mismatch("region-old-F2", drop_replay(inp), deep, mo.get("deepVars")))
                         if "ir" in a and "validSubset" in a and not mo.get("error") and bool(a["validSubset"]) != bool(mo["valid"]):
                             res.mismatches.append(Mismatch("spec-validator-vs-graphql-core", drop_replay(inp),
                                                            {"valid": a["validSubset"], "messages": a["validation"][:4]}, {"valid": mo["valid"]}))
@@ -1610,6 +1638,17 @@ def run(ctx: Ctx, st: Optional[LeanStatus]) -> Result:
         "print_ast / parse of graphql-core: the document IR is read back from the query text that was sent",
         "OverlappingFieldsCanBeMerged is judged only by graphql-core's validate (the harness's expressions give repeated fields distinct aliases)",
     ]
+    d = res.distribution
+    n_ops = sum(v for k, v in d.items() if k.startswith("op-depth:"))
+    res.extra["fixed_finding_region"] = {
+        "finding": "C14-F2 (fixed by dfbc7ef): an argument below level 2",
+        "operations_judged": n_ops,
+        "inside_old_region": d.get("region:old-F2 (argument below level 2; fixed by dfbc7ef)", 0),
+        "inside_old_region_and_outside_every_open_trigger": d.get("region:old-F2 and outside every open trigger (gained by the theorem)", 0),
+        "of_those_with_inline_fragments": d.get("region:old-F2, outside every open trigger, with inline fragments", 0),
+        "note": "the theorem region (Supported_14 and Proved_14) now contains these operations; the witness of the fixed "
+                "finding is replayed on every run and a failure on it is reported with trigger=None (VIOLATION)",
+    }
     res.extra["unproved_region"] = ("C14_partial is proved under Proved_14 (no alias/on applied to a class-level object anywhere in the history or "
                                     "the operation); operations outside every finding trigger that do mutate a class-level object which is never "
                                     "re-used are covered by correspondence and oracle only (counted as region:supported-but-unproved)")
